@@ -75,6 +75,7 @@ ASSUMPTIONS = [
 TRUSTED_EXTRA = ["harness/exprtrans.py class RowFn: the ROW-wise reading of column-wise pandas code (rules at the top of the file)",
                  "pandas boolean-mask selection, Series.replace, concat, itertuples, to_csv as modelled in Model/Export.lean",
                  "harness/colread_c20ci.py: the COLUMN-wise reading of the confidence-limit block of segments2vcf (rules at the top of the file)",
+                 "harness/segread_c20.py: the ROW-wise reading of tabio.seg.format_seg (assign / rename / reindex over a typed row), of the comprehension of create_chrom_ids, of write_seg's chrom_ids test and export_seg's default (rules at the top of the file)",
                  "harness parsing of the VCF / BED / SEG / TSV text into fields (split on tab, ';', '=', ':')",
                  "tabio.read (tab format) on sorted finite input is the identity (checked per case by the adapter)",
                  "argparse: an option string reaches the command function as the attribute the parser declares"]
